@@ -292,12 +292,12 @@ pub fn run(a: &Args, rep: &mut Report) {
     let mut cases: Vec<MCase> = Vec::new();
     for k in 0..n_mem {
         if k % 2 == 0 {
-            let total = if k % 64 == 2 { *rng.pick(&[65_535usize, 65_536, 65_537, 70_000, 1 << 20]) } else { *rng.pick(&[0usize, 1, 2, 7, 8, 9, 63, 64, 65, 255, 4095, 4096, 4097]) };
+            let total = if k % 64 == 2 { *rng.pick(if cfg!(miri) { &[8_191usize, 8_192, 8_193, 12_000, 16_384] } else { &[65_535usize, 65_536, 65_537, 70_000, 1 << 20] }) } else { *rng.pick(&[0usize, 1, 2, 7, 8, 9, 63, 64, 65, 255, 4095, 4096, 4097]) };
             let off = if total == 0 { 0 } else { rng.below(total.min(9) as u64) as usize };
             let len = if rng.chance(1, 3) { total - off } else { rng.below((total - off) as u64 + 1) as usize };
             cases.push(MCase { kind: 0, a: rng.bytes(total), b: Vec::new(), end_aligned: rng.chance(1, 2), null: 0, off, len });
         } else {
-            let la = if k % 64 == 3 { *rng.pick(&[65_534usize, 65_535, 65_536, 65_537, 70_000, 200_000, (1 << 20) - 1, 1 << 20, (1 << 20) + 1, 3_000_000]) } else { *rng.pick(&[0usize, 1, 2, 5, 16, 100, 1000]) };
+            let la = if k % 64 == 3 { *rng.pick(if cfg!(miri) { &[4_095usize, 4_096, 4_097, 8_192, 10_000, 10_001, 10_002, 10_003, 10_004, 10_005] } else { &[65_534usize, 65_535, 65_536, 65_537, 70_000, 200_000, (1 << 20) - 1, 1 << 20, (1 << 20) + 1, 3_000_000] }) } else { *rng.pick(&[0usize, 1, 2, 5, 16, 100, 1000]) };
             let mut sa: Vec<u8> = (0..la).map(|_| 1 + rng.below(255) as u8).collect();
             let mut sb = sa.clone();
             match if la > 60_000 { *rng.pick(&[0u64, 3, 4, 4, 2]) } else { rng.below(6) } {
